@@ -82,7 +82,10 @@ def run(rep, tier, seed, replay):
     direct = [c for c in direct if c.labels["base"] in ("root", "subdir")]
     general = walklib.gen_cases(seed + 1, n)
     if replay is not None:
-        direct, general = [], []
+        c = walklib.case_from(replay["input"])
+        simple = c.mode == "p" and c.link == "f" and (c.mn, c.mx) == ("-", "-") and c.stack != "-" and all(l.startswith("f:") for l in c.stack.split(";")) and c.base == ""
+        c.labels["base"] = "root"
+        direct, general = ([c], []) if simple else ([], [c])
     walklib.run_cases(direct + general)
     rep.evaluations = len(direct) + len(general)
     walklib.correspondence_step(rep, direct + general, "filter stacks")
